@@ -435,6 +435,14 @@ def _case_tree(run, rng, quick, case_seed, icase):
                 which = int(rng.integers(2))
                 arg = OpSum(ops) if which else (ops[0] if len(ops) == 1 else OpSum(ops))
                 _expect_check(case, ctx, "expectation:opsum", a, arg, ref_e, oscale, terms=terms)
+            if qn_mode == "none":
+                # one term handed over as a bare `Op` (not a TTNO, not an OpSum): complex states and non-symmetric local
+                # operators (ladder operators) distinguish Tr(rho O) from sum_ij rho_ij O_ij
+                k1 = int(rng.integers(len(terms)))
+                O1 = L.dense_operator(descs, bl, [terms[k1]], ctx["phys"])
+                ref1 = np.vdot(psi.reshape(D), O1 @ psi.reshape(D))
+                _expect_check(case, ctx, "expectation:single-Op", a, ops[k1], ref1, max(1.0, np.abs(O1).sum(axis=1).max()), terms=[terms[k1]])
+                run.count("expectation:single-Op:" + ("complex-state" if cplx else "real-state"))
             if a2 is not None:
                 ok, ttno2 = case.call("ttno", cls, lambda: TTNO(tree2, ops, algo=algo), terms=terms)
                 if ok:
